@@ -26,6 +26,7 @@ func checkC04(c *Check, a *Anchors) {
 	queryNeverRecords(c, a, "query-never-records")
 	methodResolution(c, a, "method-resolution-agrees")
 	stateKeyInjective(c, a)
+	stateAbsentMeansStale(c, a)
 	c05Generates(c, a)       // "its generates files still exist": every generates entry is checked on its own
 	c03CmdIgnoreScoped(c, a) // a cancelled or failed attempt reaches the rollback only if the command runner does not swallow its error
 }
@@ -322,11 +323,11 @@ func c04RecordAfterSuccess(c *Check, a *Anchors) {
 
 // queryNeverRecords: listing entry points never reach a state write.
 func queryNeverRecords(c *Check, a *Anchors, rule string) {
-	c.Rule(rule, "from the listing entry points (ListTasks, ListTaskNames, ToEditorOutput, GetTaskList) no filesystem-mutating call is reachable in the call graph, except inside the fingerprint checkers behind fingerprint.IsTaskUpToDate, and every such call site passes WithDry(true) — never the executor's flag, which is false for a plain --list")
+	c.Rule(rule, "from the query entry points (ListTasks, ListTaskNames, ToEditorOutput, GetTaskList, Status) no filesystem-mutating call is reachable in the call graph, except inside the fingerprint checkers behind fingerprint.IsTaskUpToDate, and every such call site passes WithDry(true) — never the executor's flag, which is false for a plain --list")
 	isUp := func(fb *FuncBody) bool {
 		return fb.Obj != nil && isFunc(fb.Obj, PkgFingerprint, "", "IsTaskUpToDate")
 	}
-	entries := []*FuncBody{a.ListTasks, a.ListTaskNames, a.ToEditor, a.GetTaskList}
+	entries := []*FuncBody{a.ListTasks, a.ListTaskNames, a.ToEditor, a.GetTaskList, a.Status}
 	reach := c.P.ReachableFrom(entries, isUp)
 	n := 0
 	ord := map[string]int{}
